@@ -220,3 +220,189 @@ Proof.
     apply Nat.leb_le in El. apply (prefix_total c _ d Hc Hx El).
   - rewrite pwrite_length by lia. rewrite app_length, Lw. lia.
 Qed.
+
+(* ---- the invariant of the shared store and the guarantee of every step *)
+Section CacheRG.
+Variable H : bytes -> bytes.
+Variable U : bytes -> Prop.
+Hypothesis H_len : forall x, length (H x) = hash_size_n.
+Hypothesis H_inj : H_inj_on H U.
+(* the Puts of the system (and of whatever built the initial store): id, content, timestamp *)
+Variable PS : bytes -> bytes -> Z -> Prop.
+Hypothesis PS_ok : forall id d tm, PS id d tm ->
+  U d /\ length id = hash_size_n /\ (0 <= tm < int64_lim)%Z /\ (Z.of_nat (length d) < int64_lim)%Z.
+
+Definition entry (id d : bytes) (tm : Z) : bytes := encode_entry id (H d) (Z.of_nat (length d)) tm.
+
+Lemma entry_length : forall id d tm, PS id d tm -> length (entry id d tm) = entry_size_n.
+Proof.
+  intros id d tm Hp. destruct (PS_ok _ _ _ Hp) as (_ & Li & Ht & Hs).
+  apply encode_entry_length; auto. lia.
+Qed.
+
+Lemma entry_nonempty : forall id d tm, entry id d tm <> [].
+Proof. intros id d tm. unfold entry. destruct (encode_entry_prefix id (H d) (Z.of_nat (length d)) tm) as [X ->]. discriminate. Qed.
+
+(* an index file is empty (just created) or holds exactly the entry of a Put whose output is complete *)
+Definition good_idx (fs : files) (id c : bytes) : Prop :=
+  c = [] \/ exists d tm, PS id d tm /\ c = entry id d tm /\ fs (DatP (H d)) = Some d.
+
+Definition Jc (s : sys) : Prop :=
+  I1 H U (sfiles s) /\
+  (forall out o, slast s (DatP out) = Some o -> exists c, sfiles s (DatP out) = Some c /\ is_prefix o c) /\
+  (forall id c, sfiles s (IdxP id) = Some c -> good_idx (sfiles s) id c) /\
+  (forall id o, slast s (IdxP id) = Some o -> good_idx (sfiles s) id o).
+
+(* no file disappears, output files only grow, a non-empty index file stays non-empty *)
+Definition grows (s s' : sys) : Prop :=
+  forall p c, sfiles s p = Some c ->
+    exists c', sfiles s' p = Some c' /\
+      match p with DatP _ => is_prefix c c' | IdxP _ => c <> [] -> c' <> [] end.
+
+Definition Gc (s s' : sys) : Prop := grows s s' /\ (Jc s -> Jc s').
+
+Lemma Gc_refl : forall s, Gc s s.
+Proof.
+  intros s. split; [|auto]. intros p c Hc. exists c. split; [exact Hc|]. destruct p; [auto|apply prefix_refl].
+Qed.
+
+Lemma Gc_J : forall s s', Jc s -> Gc s s' -> Jc s'.
+Proof. intros s s' Js [_ Hj]. auto. Qed.
+
+Lemma updl_same : forall l p v, updl l p v p = v.
+Proof. intros. unfold updl. rewrite path_eqb_refl. reflexivity. Qed.
+Lemma updl_other : forall l p v q, q <> p -> updl l p v q = l q.
+Proof. intros. unfold updl. rewrite path_eqb_neq by assumption. reflexivity. Qed.
+
+(* a complete output is known to be complete for ever *)
+Lemma complete_stable : forall d, U d -> stable Jc Gc (fun s => sfiles s (DatP (H d)) = Some d).
+Proof.
+  intros d Ud s s' Js Hc [Hg Hj]. destruct (Hg _ _ Hc) as (c' & Hc' & Hp). cbn in Hp.
+  destruct (Hj Js) as (Hi1 & _). destruct (Hi1 _ _ Hc') as (d0 & Ud0 & Hh & Hp0).
+  assert (d0 = d) by (apply H_inj; assumption). subst d0.
+  rewrite Hc'. f_equal. apply prefix_full; [exact Hp0|].
+  apply prefix_length in Hp. apply prefix_length in Hp0. lia.
+Qed.
+
+(* the output file exists, holds a prefix of d, of length at least off *)
+Definition at_least (d : bytes) (off : nat) (s : sys) : Prop :=
+  exists c, sfiles s (DatP (H d)) = Some c /\ is_prefix c d /\ (off <= length c)%nat.
+
+Lemma at_least_stable : forall d off, U d -> stable Jc Gc (at_least d off).
+Proof.
+  intros d off Ud s s' Js (c & Hc & Hp & Hl) [Hg Hj]. destruct (Hg _ _ Hc) as (c' & Hc' & Hp'). cbn in Hp'.
+  destruct (Hj Js) as (Hi1 & _). destruct (Hi1 _ _ Hc') as (d0 & Ud0 & Hh & Hp0).
+  assert (d0 = d) by (apply H_inj; assumption). subst d0.
+  exists c'. split; [exact Hc'|]. split; [exact Hp0|]. apply prefix_length in Hp'. lia.
+Qed.
+
+Definition idx_exists (id : bytes) (s : sys) : Prop := exists c, sfiles s (IdxP id) = Some c.
+Definition idx_nonempty (id : bytes) (s : sys) : Prop := exists c, sfiles s (IdxP id) = Some c /\ c <> [].
+
+Lemma idx_exists_stable : forall id, stable Jc Gc (idx_exists id).
+Proof. intros id s s' _ (c & Hc) [Hg _]. destruct (Hg _ _ Hc) as (c' & Hc' & _). exists c'. exact Hc'. Qed.
+
+Lemma idx_nonempty_stable : forall id, stable Jc Gc (idx_nonempty id).
+Proof.
+  intros id s s' _ (c & Hc & Hn) [Hg _]. destruct (Hg _ _ Hc) as (c' & Hc' & Hp). exists c'. split; [exact Hc'|]. apply Hp. exact Hn.
+Qed.
+
+Lemma and_stable : forall (P Q : sys -> Prop), stable Jc Gc P -> stable Jc Gc Q -> stable Jc Gc (fun s => P s /\ Q s).
+Proof. intros P Q HP HQ s s' Js [Hp Hq] Hg. split; [eapply HP|eapply HQ]; eassumption. Qed.
+
+Lemma true_stable : stable Jc Gc (fun _ => True).
+Proof. intros s s' _ _ _. exact I. Qed.
+
+Lemma pure_stable : forall (X : Prop), stable Jc Gc (fun _ => X).
+Proof. intros X s s' _ Hx _. exact Hx. Qed.
+
+(* ---- single operations *)
+Lemma good_idx_ext : forall fs fs' id c, (forall out, fs' (DatP out) = fs (DatP out)) -> good_idx fs id c -> good_idx fs' id c.
+Proof.
+  intros fs fs' id c He [Hn|(d & tm & Hp & Hc & Hf)]; [left; exact Hn|right].
+  exists d, tm. rewrite He. auto.
+Qed.
+
+Lemma Jc_upd_dat : forall s d c' lastv,
+  Jc s -> U d -> is_prefix c' d ->
+  (forall c, sfiles s (DatP (H d)) = Some c -> is_prefix c c') ->
+  (forall o, lastv = Some o -> is_prefix o c') ->
+  Jc {| sfiles := upd (sfiles s) (DatP (H d)) (Some c'); slast := updl (slast s) (DatP (H d)) lastv |}.
+Proof.
+  intros s d c' lastv (Hi1 & Hj2 & Hj3 & Hj4) Ud Hp Hold Hlast. unfold Jc. cbn [sfiles slast].
+  assert (forall id c, good_idx (sfiles s) id c -> good_idx (upd (sfiles s) (DatP (H d)) (Some c')) id c) as Hgood.
+  { intros id c [Hn|(d1 & tm & Hps & Hc & Hf)]; [left; exact Hn|right]. exists d1, tm. split; [exact Hps|]. split; [exact Hc|].
+    destruct (path_eq_dec (DatP (H d1)) (DatP (H d))) as [E|N].
+    - rewrite E, upd_same. inversion E as [Eh]. destruct (PS_ok _ _ _ Hps) as (Ud1 & _).
+      assert (d1 = d) by (apply H_inj; assumption). subst d1. f_equal.
+      apply prefix_full; [exact Hp|]. pose proof (prefix_length _ _ (Hold _ Hf)). apply prefix_length in Hp. lia.
+    - rewrite upd_other by exact N. exact Hf. }
+  split; [|split; [|split]].
+  - intros out c Hc. destruct (path_eq_dec (DatP out) (DatP (H d))) as [E|N].
+    + inversion E; subst out. rewrite upd_same in Hc. inversion Hc; subst. exists d. auto.
+    + rewrite upd_other in Hc by exact N. apply Hi1. exact Hc.
+  - intros out o Ho. destruct (path_eq_dec (DatP out) (DatP (H d))) as [E|N].
+    + inversion E; subst out. rewrite updl_same in Ho. rewrite upd_same. exists c'. split; [reflexivity|apply Hlast; exact Ho].
+    + rewrite updl_other in Ho by exact N. rewrite upd_other by exact N. apply Hj2. exact Ho.
+  - intros id c Hc. rewrite upd_other in Hc by discriminate. apply Hgood. apply Hj3. exact Hc.
+  - intros id o Ho. rewrite updl_other in Ho by discriminate. apply Hgood. apply Hj4. exact Ho.
+Qed.
+
+Lemma Jc_upd_idx : forall s id c' lastv,
+  Jc s -> good_idx (sfiles s) id c' -> (forall o, lastv = Some o -> good_idx (sfiles s) id o) ->
+  Jc {| sfiles := upd (sfiles s) (IdxP id) (Some c'); slast := updl (slast s) (IdxP id) lastv |}.
+Proof.
+  intros s id c' lastv (Hi1 & Hj2 & Hj3 & Hj4) Hg Hlast. unfold Jc. cbn [sfiles slast].
+  assert (forall out, upd (sfiles s) (IdxP id) (Some c') (DatP out) = sfiles s (DatP out)) as He
+    by (intros out; apply upd_other; discriminate).
+  split; [|split; [|split]].
+  - intros out c Hc. rewrite He in Hc. apply Hi1. exact Hc.
+  - intros out o Ho. rewrite updl_other in Ho by discriminate. rewrite He. apply Hj2. exact Ho.
+  - intros id' c Hc. apply (good_idx_ext (sfiles s)); [exact He|].
+    destruct (path_eq_dec (IdxP id') (IdxP id)) as [E|N].
+    + inversion E; subst id'. rewrite upd_same in Hc. inversion Hc; subst. exact Hg.
+    + rewrite upd_other in Hc by exact N. apply Hj3. exact Hc.
+  - intros id' o Ho. apply (good_idx_ext (sfiles s)); [exact He|].
+    destruct (path_eq_dec (IdxP id') (IdxP id)) as [E|N].
+    + inversion E; subst id'. rewrite updl_same in Ho. apply Hlast. exact Ho.
+    + rewrite updl_other in Ho by exact N. apply Hj4. exact Ho.
+Qed.
+
+Lemma Jc_reset_last : forall s p, Jc s -> Jc {| sfiles := sfiles s; slast := updl (slast s) p None |}.
+Proof.
+  intros s p (Hi1 & Hj2 & Hj3 & Hj4). unfold Jc. cbn [sfiles slast]. split; [exact Hi1|]. split; [|split; [exact Hj3|]].
+  - intros out o Ho. destruct (path_eq_dec (DatP out) p) as [E|N].
+    + rewrite E, updl_same in Ho. discriminate.
+    + rewrite updl_other in Ho by exact N. apply Hj2. exact Ho.
+  - intros id o Ho. destruct (path_eq_dec (IdxP id) p) as [E|N].
+    + rewrite E, updl_same in Ho. discriminate.
+    + rewrite updl_other in Ho by exact N. apply Hj4. exact Ho.
+Qed.
+
+Lemma grows_same_files : forall s s', sfiles s' = sfiles s -> grows s s'.
+Proof.
+  intros s s' E p c Hc. exists c. rewrite E. split; [exact Hc|]. destruct p; [auto|apply prefix_refl].
+Qed.
+
+(* observing operations and Close/Chtimes change nothing *)
+Lemma cstep_observe : forall o torn s,
+  match o with OStat _ | ORead _ _ _ | OReadAll _ | OClose _ | OChtimes _ => True | _ => False end ->
+  Gc s (fst (cstep o torn s)).
+Proof.
+  intros o torn s Ho. destruct o; try contradiction; cbn [cstep fst step]; try apply Gc_refl.
+  - split; [apply grows_same_files; reflexivity|]. destruct s; auto.
+  - split; [apply grows_same_files; reflexivity|]. destruct s; auto.
+Qed.
+
+(* opening for reading *)
+Lemma cstep_open_ro : forall p torn s, Gc s (fst (cstep (OOpen p false false) torn s)).
+Proof.
+  intros p torn s. cbn [cstep step op_path]. destruct (sfiles s p); cbn [fst];
+    (split; [apply grows_same_files; reflexivity|intros Js; apply (Jc_reset_last s p Js)]).
+Qed.
+
+Lemma cstep_open_ro_res : forall p torn s,
+  snd (cstep (OOpen p false false) torn s) = match sfiles s p with Some _ => ROk | None => RErr end.
+Proof. intros. cbn [cstep step]. destruct (sfiles s p); reflexivity. Qed.
+
+End CacheRG.
